@@ -29,4 +29,775 @@ example : parseIsd "+007".toList = some 7 ∧ IsdSp 7 "+007".toList :=
   ⟨by decide, (isd_accept_only_spellings _ _ (by decide)).1⟩
 example : parseIsd "65536".toList = none ∧ parseIsd "1 ".toList = none ∧ parseIsd [] = none := by decide
 
+/-! ## AS number -/
+
+/-- spellings of an AS number: decimal (documented: only below 2^32), or three colon-separated hex parts
+    of 16 bit each (documented alternative also for small values, e.g. `0:0:1`) -/
+def AsnSp (v : Nat) (s : Str) : Prop :=
+  (v ≤ ASN_PARSE_DECIMAL_MAX ∧ NumSp 10 v s) ∨
+  (∃ a b c sa sb sc, a < 2 ^ 16 ∧ b < 2 ^ 16 ∧ c < 2 ^ 16 ∧ v = (a * 2 ^ 16 + b) * 2 ^ 16 + c ∧
+    s = sa ++ ASN_SEP :: (sb ++ ASN_SEP :: sc) ∧ NumSp 16 a sa ∧ NumSp 16 b sb ∧ NumSp 16 c sc)
+
+theorem asn_parse_show (v : Nat) (hv : v ≤ ASN_MAX) : parseAsn (showAsn v) = some v := by
+  unfold showAsn
+  by_cases hd : v ≤ ASN_DISPLAY_DECIMAL_MAX
+  · rw [if_pos hd]
+    unfold parseAsn
+    rw [parseUInt_showNat (Or.inl rfl) (by simp [ASN_DISPLAY_DECIMAL_MAX, ASN_DECIMAL_PARSE_BITS] at hd ⊢; omega)]
+    simp [ASN_PARSE_DECIMAL_MAX, ASN_DISPLAY_DECIMAL_MAX] at hd ⊢; simp [hd]
+  · rw [if_neg hd]
+    unfold parseAsn
+    rw [showAsn_hex]
+    have hsep : ASN_SEP ∈ showNat 16 (v / 2 ^ 32 % 2 ^ 16) ++ ASN_SEP :: (showNat 16 (v / 2 ^ 16 % 2 ^ 16) ++ ASN_SEP :: showNat 16 (v % 2 ^ 16)) := by simp
+    rw [parseUInt_none_of_mem (Or.inl rfl) ASN_SEP hsep sep_not_digit.1 sep_not_digit.2.1 sep_not_digit.2.2]
+    have hn : ∀ n, ASN_SEP ∉ showNat 16 n := fun n hm => sep_not_digit.2.1 (showNat_chars (by omega) n _ hm)
+    have h3 : ASN_NUMBER_PARTS = 3 := rfl
+    simp only [h3, splitN_three, splitOnce_append (hn _)]
+    simp only [foldAsnParts, ASN_PART_RADIX, ASN_PART_PARSE_BITS, ASN_BITS_PER_PART,
+      parseUInt_showNat (Or.inr rfl) (Nat.mod_lt _ (by omega : 0 < 2 ^ 16))]
+    simp [ASN_MAX] at hv ⊢
+    omega
+
+theorem asn_accept_only_spellings (s : Str) (v : Nat) (h : parseAsn s = some v) : AsnSp v s ∧ v ≤ ASN_MAX := by
+  unfold parseAsn at h
+  split at h
+  · next bgp hb =>
+    split at h
+    · next hle =>
+      cases h
+      exact ⟨Or.inl ⟨hle, (parseUInt_spelling (Or.inl rfl) hb).1⟩, by simp [ASN_PARSE_DECIMAL_MAX, ASN_MAX] at hle ⊢; omega⟩
+    · cases h
+  · split at h
+    · next val n hf =>
+      split at h
+      · next hn =>
+        split at h
+        · next hle =>
+          cases h
+          refine ⟨Or.inr ?_, hle⟩
+          have h3 : ASN_NUMBER_PARTS = 3 := rfl
+          rw [h3, splitN_three] at hf
+          subst hn
+          split at hf
+          · next a b hab =>
+            split at hf
+            · next c d hcd =>
+              obtain ⟨x, y, z, hx, hy, hz, hval, _⟩ := foldAsnParts_three hf
+              obtain ⟨h1, _⟩ := splitOnce_some hab
+              obtain ⟨h2, _⟩ := splitOnce_some hcd
+              obtain ⟨sx, bx⟩ := parseUInt_spelling (Or.inr rfl) hx
+              obtain ⟨sy, by'⟩ := parseUInt_spelling (Or.inr rfl) hy
+              obtain ⟨sz, bz⟩ := parseUInt_spelling (Or.inr rfl) hz
+              exact ⟨x, y, z, a, c, d, bx, by', bz, hval, by rw [h1, h2], sx, sy, sz⟩
+            · have := foldAsnParts_count _ _ _ _ _ hf; simp at this; omega
+          · have := foldAsnParts_count _ _ _ _ _ hf; simp at this; omega
+        · cases h
+      · cases h
+    · cases h
+
+example : parseAsn "ff00:0:110".toList = some 0xff0000000110 := by decide
+example : parseAsn "4294967296".toList = none ∧ parseAsn "0:0:0:0".toList = none ∧ parseAsn "1:0".toList = none := by decide
+
+/-! ## ISD-AS -/
+
+/-- spellings of an ISD-AS number: `isd "-" asn` -/
+def IsdAsnSp (v : Nat) (s : Str) : Prop :=
+  ∃ i a si sa, i < 2 ^ ISD_BITS ∧ a ≤ ASN_MAX ∧ v = mkIa i a ∧ s = si ++ IA_SEP :: sa ∧ IsdSp i si ∧ AsnSp a sa
+
+theorem ia_sep_not_in_isd (n : Nat) : IA_SEP ∉ showIsd n := fun hm => by
+  have := showNat_chars (by omega) n _ hm; revert this; decide
+
+theorem ia_sep_not_in_asn (v : Nat) : IA_SEP ∉ showAsn v := by
+  unfold showAsn
+  have hn : ∀ r n, 2 ≤ r → IA_SEP ∉ showNat r n := fun r n hr hm => by
+    have := showNat_chars hr n _ hm; revert this; decide
+  split
+  · exact hn _ _ (by omega)
+  · rw [showAsn_hex]
+    simp only [List.mem_append, List.mem_cons, not_or]
+    exact ⟨hn _ _ (by omega), by decide, hn _ _ (by omega), by decide, hn _ _ (by omega)⟩
+
+theorem isdAsn_parse_show (v : Nat) (hv : v < 2 ^ IA_BITS) : parseIsdAsn (showIsdAsn v) = .ok v := by
+  unfold parseIsdAsn showIsdAsn
+  have hcount : (((showIsd (v / 2 ^ ASN_BITS) ++ [IA_SEP] ++ showAsn (v % 2 ^ ASN_BITS)).filter (· == IA_SEP)).take 2).length = 1 := by
+    simp [List.filter_append, filter_sep_of_not_mem (ia_sep_not_in_isd _), filter_sep_of_not_mem (ia_sep_not_in_asn _)]
+  rw [if_neg (by rw [hcount]; simp)]
+  have : showIsd (v / 2 ^ ASN_BITS) ++ [IA_SEP] ++ showAsn (v % 2 ^ ASN_BITS) =
+      showIsd (v / 2 ^ ASN_BITS) ++ IA_SEP :: showAsn (v % 2 ^ ASN_BITS) := by simp
+  rw [this, splitOnce_append (ia_sep_not_in_isd _)]
+  have hi : v / 2 ^ ASN_BITS < 2 ^ ISD_BITS := by
+    simp [ASN_BITS, ISD_BITS, IA_BITS] at hv ⊢; omega
+  have ha : v % 2 ^ ASN_BITS ≤ ASN_MAX := by
+    simp [ASN_BITS, ASN_MAX]; omega
+  simp only [isd_parse_show _ hi, asn_parse_show _ ha, mkIa]
+  congr 1
+  rw [Nat.mul_comm]; exact Nat.div_add_mod v _
+
+theorem isdAsn_total (s : Str) : parseIsdAsn s ≠ .panic := by
+  unfold parseIsdAsn
+  split
+  · simp
+  · next hc =>
+    split
+    · next hs =>
+      exfalso
+      have hnm := splitOnce_none hs
+      rw [filter_sep_of_not_mem hnm] at hc
+      simp at hc
+    · split <;> simp
+
+theorem isdAsn_accept_only_spellings (s : Str) (v : Nat) (h : parseIsdAsn s = .ok v) :
+    IsdAsnSp v s ∧ v < 2 ^ IA_BITS := by
+  unfold parseIsdAsn at h
+  split at h
+  · cases h
+  · split at h
+    · cases h
+    · next a b hab =>
+      split at h
+      · next i asn hi ha =>
+        cases h
+        obtain ⟨h1, _⟩ := splitOnce_some hab
+        obtain ⟨si, bi⟩ := isd_accept_only_spellings _ _ hi
+        obtain ⟨sa, ba⟩ := asn_accept_only_spellings _ _ ha
+        refine ⟨⟨i, asn, a, b, bi, ba, rfl, h1, si, sa⟩, ?_⟩
+        simp [mkIa, ASN_BITS, ISD_BITS, IA_BITS, ASN_MAX] at bi ba ⊢; omega
+      · cases h
+
+example : parseIsdAsn "1-ff00:0:110".toList = .ok 0x1ff0000000110 := by decide
+example : parseIsdAsn "1-1-0:0:1".toList = .err ∧ parseIsdAsn "1".toList = .err ∧ parseIsdAsn "-".toList = .err := by decide
+
+/-! ## service address -/
+
+/-- the part before the suffix: a well-known name, or the numeric form `<SVC:0x` hex `>` -/
+def SvcBaseSp (a : Nat) (s : Str) : Prop :=
+  (s, a) ∈ SVC_PARSE_NAMES ∨ (∃ hex, s = SVC_PARSE_HEX_OPEN ++ hex ++ SVC_PARSE_HEX_CLOSE ∧ NumSp 16 a hex)
+
+/-- spellings of a service address: base, then nothing or `_A` (anycast) or `_M` (multicast flag set) -/
+def SvcSp (v : Nat) (s : Str) : Prop :=
+  ∃ a base, a < SVC_MULTICAST_FLAG ∧ SvcBaseSp a base ∧
+    ((v = a ∧ (s = base ∨ s = base ++ SVC_SUFFIX_SEP :: SVC_SUFFIX_ANYCAST)) ∨
+     (v = a + SVC_MULTICAST_FLAG ∧ s = base ++ SVC_SUFFIX_SEP :: SVC_SUFFIX_MULTICAST))
+
+theorem lookupValue_mem : ∀ {tab : List (Str × Nat)} {v : Nat} {n : Str}, lookupValue tab v = some n → (n, v) ∈ tab
+  | [], _, _, h => by simp [lookupValue] at h
+  | (n', w) :: rest, v, n, h => by
+    unfold lookupValue at h
+    split at h
+    · next hw => cases h; subst hw; simp
+    · exact List.mem_cons_of_mem _ (lookupValue_mem h)
+
+theorem lookupName_mem : ∀ {tab : List (Str × Nat)} {s : Str} {v : Nat}, lookupName tab s = some v → (s, v) ∈ tab
+  | [], _, _, h => by simp [lookupName] at h
+  | (n', w) :: rest, s, v, h => by
+    unfold lookupName at h
+    split at h
+    · next hn => cases h; subst hn; simp
+    · exact List.mem_cons_of_mem _ (lookupName_mem h)
+
+theorem lookupName_none : ∀ {tab : List (Str × Nat)} {s : Str}, (∀ p ∈ tab, p.1 ≠ s) → lookupName tab s = none
+  | [], _, _ => rfl
+  | (n', w) :: rest, s, h => by
+    unfold lookupName
+    rw [if_neg (h (n', w) (by simp))]
+    exact lookupName_none (fun p hp => h p (List.mem_cons_of_mem _ hp))
+
+/-- facts about the extracted tables that the round trip needs (re-checked when the tables change) -/
+theorem svc_tables_ok :
+    (∀ p ∈ SVC_SHOW_NAMES, lookupName SVC_PARSE_NAMES p.1 = some p.2 ∧ SVC_SUFFIX_SEP ∉ p.1 ∧ p.2 < SVC_MULTICAST_FLAG) ∧
+    (∀ p ∈ SVC_PARSE_NAMES, p.1.head? ≠ SVC_HEX_OPEN.head? ∧ p.2 < SVC_MULTICAST_FLAG) ∧
+    SVC_PARSE_HEX_OPEN = SVC_HEX_OPEN ∧ SVC_PARSE_HEX_CLOSE = SVC_HEX_CLOSE ∧
+    SVC_SUFFIX_SEP ∉ SVC_HEX_OPEN ∧ SVC_SUFFIX_SEP ∉ SVC_HEX_CLOSE ∧ SVC_SUFFIX_SEP ∉ lowerDigits ∧
+    SVC_SUFFIX_ANYCAST ≠ SVC_SUFFIX_MULTICAST ∧ SVC_HEX_OPEN ≠ [] ∧
+    SVC_PARSE_HEX_RADIX = 16 ∧ SVC_PARSE_HEX_BITS = 16 ∧ SVC_BITS = 16 ∧ SVC_MULTICAST_FLAG = 2 ^ 15 ∧
+    SVC_HEX_WIDTH = 4 := by decide
+
+theorem svc_flag_facts (v : Nat) (hv : v < 2 ^ SVC_BITS) :
+    toAnycast v < SVC_MULTICAST_FLAG ∧ isMulticast (toAnycast v) = false ∧
+    (isMulticast v = true → toAnycast v + SVC_MULTICAST_FLAG = v) ∧ (isMulticast v = false → toAnycast v = v) := by
+  simp only [toAnycast, isMulticast, SVC_MULTICAST_FLAG, SVC_BITS] at *
+  by_cases h : v / 32768 % 2 = 1
+  · simp [h]; omega
+  · simp [h]; omega
+
+theorem parseSvcBase_showSvcBase (a : Nat) (ha : a < SVC_MULTICAST_FLAG) :
+    SVC_SUFFIX_SEP ∉ showSvcBase a ∧ parseSvcBase (showSvcBase a) = some a := by
+  obtain ⟨hshow, hparse, hopen, hclose, hs1, hs2, hs3, hAM, hne, hrad, hbits, _, hflag, hwidth⟩ := svc_tables_ok
+  have hanyM : isMulticast a = false := by
+    simp only [isMulticast]; rw [hflag] at ha ⊢
+    have : a / 2 ^ 15 = 0 := Nat.div_eq_of_lt ha
+    simp [this]
+  unfold showSvcBase
+  cases hl : lookupValue SVC_SHOW_NAMES a with
+  | some name =>
+    obtain ⟨h1, h2, _⟩ := hshow _ (lookupValue_mem hl)
+    exact ⟨h2, by simp [parseSvcBase, h1]⟩
+  | none =>
+    simp only
+    have hdig : ∀ c ∈ padZeros SVC_HEX_WIDTH (showNat 16 a), c ∈ lowerDigits := by
+      intro c hc
+      unfold padZeros at hc
+      rcases List.mem_append.mp hc with hc | hc
+      · rw [List.mem_replicate] at hc; rcases hc with ⟨_, rfl⟩; decide
+      · exact showNat_chars (by omega) _ c hc
+    refine ⟨?_, ?_⟩
+    · simp only [List.mem_append, not_or]
+      exact ⟨⟨hs1, fun hm => hs3 (hdig _ hm)⟩, hs2⟩
+    · have hnone : lookupName SVC_PARSE_NAMES (SVC_HEX_OPEN ++ padZeros SVC_HEX_WIDTH (showNat 16 a) ++ SVC_HEX_CLOSE) = none := by
+        apply lookupName_none
+        intro p hp heq
+        have := (hparse p hp).1
+        rw [heq] at this
+        apply this
+        cases hO : SVC_HEX_OPEN with
+        | nil => exact absurd hO hne
+        | cons x xs => simp
+      unfold parseSvcBase
+      rw [hnone]
+      simp only
+      have h1 : stripPrefix SVC_PARSE_HEX_OPEN (SVC_HEX_OPEN ++ padZeros SVC_HEX_WIDTH (showNat 16 a) ++ SVC_HEX_CLOSE) =
+          some (padZeros SVC_HEX_WIDTH (showNat 16 a) ++ SVC_HEX_CLOSE) := by
+        rw [stripPrefix_some, hopen]; simp
+      have h2 : stripSuffix SVC_PARSE_HEX_CLOSE (padZeros SVC_HEX_WIDTH (showNat 16 a) ++ SVC_HEX_CLOSE) =
+          some (padZeros SVC_HEX_WIDTH (showNat 16 a)) := by
+        rw [stripSuffix_some, hclose]
+      rw [h1]; simp only; rw [h2]; simp only
+      unfold padZeros
+      rw [hrad, hbits, parseUInt_zeros_showNat (Or.inr rfl) (by rw [hflag] at ha; omega)]
+      simp [hanyM]
+
+theorem svc_parse_show (v : Nat) (hv : v < 2 ^ SVC_BITS) : parseSvc (showSvc v) = some v := by
+  obtain ⟨_, _, _, _, _, _, _, hAM, _⟩ := svc_tables_ok
+  obtain ⟨hany, hanyM, hM, hA⟩ := svc_flag_facts v hv
+  obtain ⟨hsep, hpb⟩ := parseSvcBase_showSvcBase _ hany
+  unfold showSvc parseSvc
+  by_cases hm : isMulticast v = true
+  · simp only [hm, if_true]
+    have : splitSvcSuffix (showSvcBase (toAnycast v) ++ SVC_SUFFIX_SEP :: SVC_SUFFIX_MULTICAST) =
+        (showSvcBase (toAnycast v), SVC_SUFFIX_MULTICAST) := by
+      unfold splitSvcSuffix; rw [splitOnce_append hsep]
+    rw [this]
+    simp only [hpb]
+    rw [if_neg (Ne.symm hAM)]
+    simp only [if_true, toMulticast, hanyM]
+    simp [hM hm]
+  · have hm' : isMulticast v = false := by simpa using hm
+    simp only [hm', Bool.false_eq_true, if_false, List.append_nil]
+    have : splitSvcSuffix (showSvcBase (toAnycast v)) = (showSvcBase (toAnycast v), SVC_SUFFIX_ANYCAST) := by
+      unfold splitSvcSuffix; rw [splitOnce_of_not_mem hsep]
+    rw [this]
+    simp only [if_true]
+    rw [hpb]
+    simp only [hA hm']
+
+theorem parseSvcBase_spelling {service : Str} {a : Nat} (h : parseSvcBase service = some a) :
+    SvcBaseSp a service ∧ a < SVC_MULTICAST_FLAG := by
+  obtain ⟨_, hparse, _, _, _, _, _, _, _, hrad, hbits, hsb, hflag, _⟩ := svc_tables_ok
+  unfold parseSvcBase at h
+  split at h
+  · next v0 hl => cases h; exact ⟨Or.inl (lookupName_mem hl), (hparse _ (lookupName_mem hl)).2⟩
+  · split at h
+    · cases h
+    · next rest hp =>
+      split at h
+      · cases h
+      · next hex hsuf =>
+        split at h
+        · cases h
+        · next value hu =>
+          split at h
+          · cases h
+          · next hnm =>
+            cases h
+            rw [stripPrefix_some] at hp
+            rw [stripSuffix_some] at hsuf
+            rw [hrad, hbits] at hu
+            obtain ⟨hsp', hlt⟩ := parseUInt_spelling (Or.inr rfl) hu
+            refine ⟨Or.inr ⟨hex, by rw [hp, hsuf]; simp, hsp'⟩, ?_⟩
+            simp only [isMulticast, SVC_MULTICAST_FLAG] at hnm ⊢
+            have : ¬ (a / 32768 % 2 = 1) := by simpa using hnm
+            omega
+
+theorem svc_accept_only_spellings (s : Str) (v : Nat) (h : parseSvc s = some v) : SvcSp v s ∧ v < 2 ^ SVC_BITS := by
+  obtain ⟨_, _, _, _, _, _, _, _, _, _, _, hsb, hflag, _⟩ := svc_tables_ok
+  unfold parseSvc at h
+  cases hsp : splitSvcSuffix s with
+  | mk service suffix =>
+    rw [hsp] at h
+    simp only at h
+    have hs : (s = service ∧ suffix = SVC_SUFFIX_ANYCAST) ∨ s = service ++ SVC_SUFFIX_SEP :: suffix := by
+      unfold splitSvcSuffix at hsp
+      split at hsp
+      · next p hp => subst hsp; exact Or.inr (splitOnce_some hp).1
+      · cases hsp; exact Or.inl ⟨rfl, rfl⟩
+    split at h
+    · cases h
+    · next a hbase =>
+      obtain ⟨hb, halt⟩ := parseSvcBase_spelling hbase
+      have hlt16 : a + SVC_MULTICAST_FLAG < 2 ^ SVC_BITS := by rw [hflag, hsb] at *; omega
+      split at h
+      · next hA =>
+        cases h
+        refine ⟨⟨v, service, halt, hb, Or.inl ⟨rfl, ?_⟩⟩, by omega⟩
+        rcases hs with ⟨h1, _⟩ | h1
+        · exact Or.inl h1
+        · exact Or.inr (by rw [h1, hA])
+      · split at h
+        · next hA hM =>
+          cases h
+          have hnm : isMulticast a = false := by
+            simp only [isMulticast]; rw [hflag] at halt ⊢
+            have : a / 2 ^ 15 = 0 := Nat.div_eq_of_lt halt
+            simp [this]
+          refine ⟨⟨a, service, halt, hb, Or.inr ⟨by simp [toMulticast, hnm], ?_⟩⟩, by simp [toMulticast, hnm]; exact hlt16⟩
+          rcases hs with ⟨_, h2⟩ | h1
+          · exact absurd h2 hA
+          · rw [h1, hM]
+        · cases h
+
+example : parseSvc "CS_M".toList = some 0x8002 ∧ parseSvc "<SVC:0x0003>".toList = some 3 ∧
+    parseSvc "<SVC:0x8003>".toList = none ∧ parseSvc "CS_".toList = none := by decide
+example : showSvc 0xffff = "<SVC:0x7fff>_M".toList := by decide
+
+/-! ## host address (IPv4 / IPv6 text is std's: the `HostCodec` parameter) -/
+
+def ipv4Alphabet : Str := ['0', '1', '2', '3', '4', '5', '6', '7', '8', '9', '.']
+def ipv6Alphabet : Str :=
+  ['0', '1', '2', '3', '4', '5', '6', '7', '8', '9', 'a', 'b', 'c', 'd', 'e', 'f', 'A', 'B', 'C', 'D', 'E', 'F', ':', '.']
+
+/-- what the theorems assume about `std::net::{Ipv4Addr, Ipv6Addr}` `FromStr` / `Display` (checked on std
+    itself by the harness on every run; never an axiom – always an explicit hypothesis) -/
+structure HostCodec.Lawful (C : HostCodec) : Prop where
+  rt4 : ∀ a, a < 2 ^ 32 → C.parse4 (C.show4 a) = some a
+  rt6 : ∀ a, a < 2 ^ 128 → C.parse6 (C.show6 a) = some a
+  range4 : ∀ s a, C.parse4 s = some a → a < 2 ^ 32
+  range6 : ∀ s a, C.parse6 s = some a → a < 2 ^ 128
+  alpha4 : ∀ s a, C.parse4 s = some a → ∀ c ∈ s, c ∈ ipv4Alphabet
+  alpha6 : ∀ s a, C.parse6 s = some a → ∀ c ∈ s, c ∈ ipv6Alphabet
+  colon6 : ∀ a, a < 2 ^ 128 → ':' ∈ C.show6 a
+
+def Host.Valid : Host → Prop
+  | .v4 a => a < 2 ^ 32
+  | .v6 a => a < 2 ^ 128
+  | .svc v => v < 2 ^ SVC_BITS
+
+/-- spellings of a host address: whatever std reads as that IPv4 / IPv6 address, or a service spelling -/
+def HostSp (C : HostCodec) : Host → Str → Prop
+  | .v4 a, s => C.parse4 s = some a
+  | .v6 a, s => C.parse6 s = some a
+  | .svc v, s => SvcSp v s
+
+theorem alpha4_sub : ∀ c ∈ ipv4Alphabet, c ∈ ipv6Alphabet := by decide
+
+theorem svcBase_nonip : (∀ p ∈ SVC_PARSE_NAMES, ∃ c ∈ p.1, c ∉ ipv6Alphabet) ∧ (∃ c ∈ SVC_PARSE_HEX_OPEN, c ∉ ipv6Alphabet) := by
+  decide
+
+/-- a string accepted as a service address contains a character that no IP text contains -/
+theorem parseSvc_nonip {s : Str} {v : Nat} (h : parseSvc s = some v) : ∃ c ∈ s, c ∉ ipv6Alphabet := by
+  obtain ⟨⟨a, base, _, hb, hs⟩, _⟩ := svc_accept_only_spellings s v h
+  have hbase : ∃ c ∈ base, c ∉ ipv6Alphabet := by
+    rcases hb with hb | ⟨hex, rfl, _⟩
+    · exact svcBase_nonip.1 _ hb
+    · obtain ⟨c, hc, hn⟩ := svcBase_nonip.2
+      exact ⟨c, by simp [hc], hn⟩
+  obtain ⟨c, hc, hn⟩ := hbase
+  refine ⟨c, ?_, hn⟩
+  rcases hs with ⟨_, rfl | rfl⟩ | ⟨_, rfl⟩ <;> simp [hc]
+
+theorem parseSvc_none_of_ip {s : Str} (h : ∀ c ∈ s, c ∈ ipv6Alphabet) : parseSvc s = none := by
+  cases hp : parseSvc s with
+  | none => rfl
+  | some v => obtain ⟨c, hc, hn⟩ := parseSvc_nonip hp; exact absurd (h c hc) hn
+
+theorem show4_alpha {C : HostCodec} (hC : C.Lawful) {a : Nat} (ha : a < 2 ^ 32) : ∀ c ∈ C.show4 a, c ∈ ipv4Alphabet :=
+  hC.alpha4 _ _ (hC.rt4 a ha)
+
+theorem show6_alpha {C : HostCodec} (hC : C.Lawful) {a : Nat} (ha : a < 2 ^ 128) : ∀ c ∈ C.show6 a, c ∈ ipv6Alphabet :=
+  hC.alpha6 _ _ (hC.rt6 a ha)
+
+theorem parse4_show6 {C : HostCodec} (hC : C.Lawful) {a : Nat} (ha : a < 2 ^ 128) : C.parse4 (C.show6 a) = none := by
+  cases hp : C.parse4 (C.show6 a) with
+  | none => rfl
+  | some b => exact absurd (hC.alpha4 _ _ hp ':' (hC.colon6 a ha)) (by decide)
+
+theorem showSvc_nonip (v : Nat) (hv : v < 2 ^ SVC_BITS) : ∃ c ∈ showSvc v, c ∉ ipv6Alphabet :=
+  parseSvc_nonip (svc_parse_show v hv)
+
+theorem parse_ip_showSvc {C : HostCodec} (hC : C.Lawful) (v : Nat) (hv : v < 2 ^ SVC_BITS) :
+    C.parse4 (showSvc v) = none ∧ C.parse6 (showSvc v) = none := by
+  obtain ⟨c, hc, hn⟩ := showSvc_nonip v hv
+  constructor
+  · cases hp : C.parse4 (showSvc v) with
+    | none => rfl
+    | some b => exact absurd (alpha4_sub c (hC.alpha4 _ _ hp c hc)) hn
+  · cases hp : C.parse6 (showSvc v) with
+    | none => rfl
+    | some b => exact absurd (hC.alpha6 _ _ hp c hc) hn
+
+theorem host_parse_show (C : HostCodec) (hC : C.Lawful) (h : Host) (hv : h.Valid) :
+    parseHost C (showHost C h) = some h := by
+  cases h with
+  | v4 a => simp [parseHost, showHost, hC.rt4 a hv]
+  | v6 a => simp [parseHost, showHost, parse4_show6 hC hv, hC.rt6 a hv]
+  | svc v =>
+    obtain ⟨h4, h6⟩ := parse_ip_showSvc hC v hv
+    simp [parseHost, showHost, h4, h6, svc_parse_show v hv]
+
+theorem host_accept_only_spellings (C : HostCodec) (hC : C.Lawful) (s : Str) (h : Host) (hp : parseHost C s = some h) :
+    HostSp C h s ∧ h.Valid := by
+  unfold parseHost at hp
+  split at hp
+  · next a h4 => cases hp; exact ⟨h4, hC.range4 _ _ h4⟩
+  · split at hp
+    · next a h6 => cases hp; exact ⟨h6, hC.range6 _ _ h6⟩
+    · split at hp
+      · next v hs => cases hp; exact svc_accept_only_spellings _ _ hs
+      · cases hp
+
+/-! ## SCION address `ia,host` -/
+
+def ScionAddr.Valid (a : ScionAddr) : Prop := a.ia < 2 ^ IA_BITS ∧ a.host.Valid
+
+/-- spellings of a SCION address: `isd-as "," host` -/
+def AddrSp (C : HostCodec) (a : ScionAddr) (s : Str) : Prop :=
+  ∃ sia sh, s = sia ++ ADDR_SEP :: sh ∧ IsdAsnSp a.ia sia ∧ HostSp C a.host sh
+
+theorem addr_sep_not_in_ia (v : Nat) : ADDR_SEP ∉ showIsdAsn v := by
+  have hn : ∀ r n, 2 ≤ r → ADDR_SEP ∉ showNat r n := fun r n hr hm => by
+    have := showNat_chars hr n _ hm; revert this; decide
+  unfold showIsdAsn showIsd showAsn
+  simp only [List.mem_append, not_or]
+  refine ⟨⟨hn _ _ (by omega), by decide⟩, ?_⟩
+  split
+  · exact hn _ _ (by omega)
+  · rw [showAsn_hex]
+    simp only [List.mem_append, List.mem_cons, not_or]
+    exact ⟨hn _ _ (by omega), by decide, hn _ _ (by omega), by decide, hn _ _ (by omega)⟩
+
+theorem parseScionAddrT_total {α : Type} (ph : Str → Option α) (s : Str) : parseScionAddrT ph s ≠ .panic := by
+  unfold parseScionAddrT
+  split
+  · next a b _ =>
+    have := isdAsn_total a
+    split
+    · split <;> simp
+    · simp
+    · next hp => exact absurd hp this
+  · simp
+
+theorem parseScionAddrT_shown {α : Type} (ph : Str → Option α) (ia : Nat) (hia : ia < 2 ^ IA_BITS) (hs : Str) :
+    parseScionAddrT ph (showIsdAsn ia ++ [ADDR_SEP] ++ hs) =
+      match ph hs with
+      | some h => .ok (ia, h)
+      | none => .err := by
+  unfold parseScionAddrT
+  have : showIsdAsn ia ++ [ADDR_SEP] ++ hs = showIsdAsn ia ++ ADDR_SEP :: hs := by simp
+  rw [this, splitN_two, splitOnce_append (addr_sep_not_in_ia ia)]
+  simp only [isdAsn_parse_show ia hia]
+  cases ph hs <;> rfl
+
+theorem parseScionAddrT_ok_inv {α : Type} {ph : Str → Option α} {s : Str} {ia : Nat} {h : α}
+    (hp : parseScionAddrT ph s = .ok (ia, h)) :
+    ∃ a b, s = a ++ ADDR_SEP :: b ∧ parseIsdAsn a = .ok ia ∧ ph b = some h := by
+  unfold parseScionAddrT at hp
+  rw [splitN_two] at hp
+  split at hp
+  · next a b hl =>
+    split at hl
+    · next x y hxy =>
+      simp at hl
+      obtain ⟨rfl, rfl⟩ := hl
+      split at hp
+      · next ia' hia =>
+        split at hp
+        · next h' hh => cases hp; exact ⟨x, y, (splitOnce_some hxy).1, hia, hh⟩
+        · cases hp
+      · cases hp
+      · cases hp
+    · simp at hl
+  · cases hp
+
+theorem scionAddr_parse_show (C : HostCodec) (hC : C.Lawful) (a : ScionAddr) (hv : a.Valid) :
+    parseScionAddr C (showScionAddr C a) = .ok a := by
+  obtain ⟨ia, h⟩ := a
+  obtain ⟨hia, hh⟩ := hv
+  simp only at hia hh
+  unfold parseScionAddr showScionAddr
+  simp only [parseScionAddrT_shown _ ia hia]
+  cases h with
+  | svc v => simp [showHost, svc_parse_show v hh]
+  | v4 a =>
+    have h1 : parseSvc (C.show4 a) = none :=
+      parseSvc_none_of_ip (fun c hc => alpha4_sub c (show4_alpha hC hh c hc))
+    simp [showHost, h1, hC.rt4 a hh]
+  | v6 a =>
+    have h1 : parseSvc (C.show6 a) = none := parseSvc_none_of_ip (show6_alpha hC hh)
+    simp [showHost, h1, parse4_show6 hC hh, hC.rt6 a hh]
+
+theorem scionAddr_total (C : HostCodec) (s : Str) : parseScionAddr C s ≠ .panic := by
+  unfold parseScionAddr
+  have h1 := parseScionAddrT_total parseSvc s
+  have h2 := parseScionAddrT_total C.parse4 s
+  have h3 := parseScionAddrT_total C.parse6 s
+  split
+  · simp
+  · next h => exact absurd h h1
+  · split
+    · simp
+    · next h => exact absurd h h2
+    · split
+      · simp
+      · next h => exact absurd h h3
+      · simp
+
+theorem scionAddr_accept_only_spellings (C : HostCodec) (hC : C.Lawful) (s : Str) (a : ScionAddr)
+    (hp : parseScionAddr C s = .ok a) : AddrSp C a s ∧ a.Valid := by
+  unfold parseScionAddr at hp
+  split at hp
+  · next ia v h1 =>
+    cases hp
+    obtain ⟨x, y, rfl, hia, hh⟩ := parseScionAddrT_ok_inv h1
+    obtain ⟨sp, hr⟩ := isdAsn_accept_only_spellings _ _ hia
+    obtain ⟨sv, hv⟩ := svc_accept_only_spellings _ _ hh
+    exact ⟨⟨x, y, rfl, sp, sv⟩, hr, hv⟩
+  · cases hp
+  · split at hp
+    · next ia v h1 =>
+      cases hp
+      obtain ⟨x, y, rfl, hia, hh⟩ := parseScionAddrT_ok_inv h1
+      obtain ⟨sp, hr⟩ := isdAsn_accept_only_spellings _ _ hia
+      exact ⟨⟨x, y, rfl, sp, hh⟩, hr, hC.range4 _ _ hh⟩
+    · cases hp
+    · split at hp
+      · next ia v h1 =>
+        cases hp
+        obtain ⟨x, y, rfl, hia, hh⟩ := parseScionAddrT_ok_inv h1
+        obtain ⟨sp, hr⟩ := isdAsn_accept_only_spellings _ _ hia
+        exact ⟨⟨x, y, rfl, sp, hh⟩, hr, hC.range6 _ _ hh⟩
+      · cases hp
+      · cases hp
+
+/-- `ScionIpAddr` (IPv4 / IPv6 hosts only) -/
+theorem scionIpAddr_parse_show (C : HostCodec) (hC : C.Lawful) (a : ScionAddr) (hv : a.Valid)
+    (hip : ∀ v, a.host ≠ .svc v) : parseScionIpAddr C (showScionAddr C a) = .ok a := by
+  obtain ⟨ia, h⟩ := a
+  obtain ⟨hia, hh⟩ := hv
+  simp only at hia hh hip
+  unfold parseScionIpAddr showScionAddr
+  simp only [parseScionAddrT_shown _ ia hia]
+  cases h with
+  | svc v => exact absurd rfl (hip v)
+  | v4 a => simp [showHost, hC.rt4 a hh]
+  | v6 a => simp [showHost, parse4_show6 hC hh, hC.rt6 a hh]
+
+theorem scionIpAddr_total (C : HostCodec) (s : Str) : parseScionIpAddr C s ≠ .panic := by
+  unfold parseScionIpAddr
+  have h2 := parseScionAddrT_total C.parse4 s
+  have h3 := parseScionAddrT_total C.parse6 s
+  split
+  · simp
+  · next h => exact absurd h h2
+  · split
+    · simp
+    · next h => exact absurd h h3
+    · simp
+
+theorem scionIpAddr_accept_only_spellings (C : HostCodec) (hC : C.Lawful) (s : Str) (a : ScionAddr)
+    (hp : parseScionIpAddr C s = .ok a) : AddrSp C a s ∧ a.Valid ∧ ∀ v, a.host ≠ .svc v := by
+  unfold parseScionIpAddr at hp
+  split at hp
+  · next ia v h1 =>
+    cases hp
+    obtain ⟨x, y, rfl, hia, hh⟩ := parseScionAddrT_ok_inv h1
+    obtain ⟨sp, hr⟩ := isdAsn_accept_only_spellings _ _ hia
+    exact ⟨⟨x, y, rfl, sp, hh⟩, ⟨hr, hC.range4 _ _ hh⟩, by simp⟩
+  · cases hp
+  · split at hp
+    · next ia v h1 =>
+      cases hp
+      obtain ⟨x, y, rfl, hia, hh⟩ := parseScionAddrT_ok_inv h1
+      obtain ⟨sp, hr⟩ := isdAsn_accept_only_spellings _ _ hia
+      exact ⟨⟨x, y, rfl, sp, hh⟩, ⟨hr, hC.range6 _ _ hh⟩, by simp⟩
+    · cases hp
+    · cases hp
+
+/-! ## SCION socket address `[ia,host]:port` -/
+
+def SocketAddr.Valid (a : SocketAddr) : Prop := a.ia < 2 ^ IA_BITS ∧ a.host.Valid ∧ a.port < 2 ^ PORT_BITS
+
+/-- spellings of a SCION socket address: `"[" scion-address "]:" port` – the brackets are mandatory and
+    nothing precedes `[` or follows the port -/
+def SockSp (C : HostCodec) (a : SocketAddr) (s : Str) : Prop :=
+  ∃ sa sp, s = SOCK_OPEN :: (sa ++ SOCK_CLOSE :: PORT_SEP :: sp) ∧ AddrSp C ⟨a.ia, a.host⟩ sa ∧ NumSp 10 a.port sp
+
+theorem parseSocketT_total {α : Type} (pa : Str → Res (Nat × α)) (hpa : ∀ s, pa s ≠ .panic) (s : Str) :
+    parseSocketT pa s ≠ .panic := by
+  unfold parseSocketT
+  split
+  · simp
+  · split
+    · simp
+    · split
+      · simp
+      · next inner _ =>
+        split
+        · split <;> simp
+        · simp
+        · next h => exact absurd h (hpa inner)
+
+theorem parseSocketT_shown {α : Type} (pa : Str → Res (Nat × α)) (inner : Str) (port : Nat) (hp : port < 2 ^ PORT_BITS) :
+    parseSocketT pa ([SOCK_OPEN] ++ inner ++ [SOCK_CLOSE] ++ [PORT_SEP] ++ showNat 10 port) =
+      match pa inner with
+      | .ok a => .ok (a, port)
+      | .err => .err
+      | .panic => .panic := by
+  unfold parseSocketT
+  have hps : PORT_SEP ∉ showNat 10 port := fun hm => by
+    have := showNat_chars (by omega) port _ hm; revert this; decide
+  have : [SOCK_OPEN] ++ inner ++ [SOCK_CLOSE] ++ [PORT_SEP] ++ showNat 10 port =
+      ([SOCK_OPEN] ++ inner ++ [SOCK_CLOSE]) ++ PORT_SEP :: showNat 10 port := by simp
+  rw [this, rsplitOnce_append hps]
+  simp only
+  have h1 : stripPrefix [SOCK_OPEN] ([SOCK_OPEN] ++ inner ++ [SOCK_CLOSE]) = some (inner ++ [SOCK_CLOSE]) := by
+    rw [stripPrefix_some]; simp
+  have h2 : stripSuffix [SOCK_CLOSE] (inner ++ [SOCK_CLOSE]) = some inner := by rw [stripSuffix_some]
+  rw [h1]; simp only; rw [h2]; simp only
+  rw [parseUInt_showNat (Or.inl rfl) hp]
+  cases pa inner <;> rfl
+
+theorem parseSocketT_ok_inv {α : Type} {pa : Str → Res (Nat × α)} {s : Str} {a : Nat × α} {p : Nat}
+    (h : parseSocketT pa s = .ok (a, p)) :
+    ∃ inner ps, s = SOCK_OPEN :: (inner ++ SOCK_CLOSE :: PORT_SEP :: ps) ∧ pa inner = .ok a ∧
+      parseUInt 10 PORT_BITS ps = some p := by
+  unfold parseSocketT at h
+  split at h
+  · cases h
+  · next br ps hr =>
+    split at h
+    · cases h
+    · next r hpre =>
+      split at h
+      · cases h
+      · next inner hsuf =>
+        split at h
+        · next a' ha =>
+          split at h
+          · next p' hport =>
+            cases h
+            obtain ⟨h1, _⟩ := rsplitOnce_some hr
+            rw [stripPrefix_some] at hpre
+            rw [stripSuffix_some] at hsuf
+            exact ⟨inner, ps, by rw [h1, hpre, hsuf]; simp, ha, hport⟩
+          · cases h
+        · cases h
+        · cases h
+
+theorem socketAddr_parse_show (C : HostCodec) (hC : C.Lawful) (a : SocketAddr) (hv : a.Valid) :
+    parseSocketAddr C (showSocketAddr C a) = .ok a := by
+  obtain ⟨ia, h, port⟩ := a
+  obtain ⟨hia, hh, hp⟩ := hv
+  simp only at hia hh hp
+  unfold parseSocketAddr showSocketAddr
+  have : [SOCK_OPEN] ++ showIsdAsn ia ++ [ADDR_SEP] ++ showHost C h ++ [SOCK_CLOSE] ++ [PORT_SEP] ++ showNat 10 port =
+      [SOCK_OPEN] ++ (showIsdAsn ia ++ [ADDR_SEP] ++ showHost C h) ++ [SOCK_CLOSE] ++ [PORT_SEP] ++ showNat 10 port := by simp
+  simp only [this, parseSocketT_shown _ _ port hp, parseScionAddrT_shown _ ia hia]
+  cases h with
+  | svc v => simp [showHost, svc_parse_show v hh]
+  | v4 a =>
+    have h1 : parseSvc (C.show4 a) = none :=
+      parseSvc_none_of_ip (fun c hc => alpha4_sub c (show4_alpha hC hh c hc))
+    simp [showHost, h1, hC.rt4 a hh]
+  | v6 a =>
+    have h1 : parseSvc (C.show6 a) = none := parseSvc_none_of_ip (show6_alpha hC hh)
+    simp [showHost, h1, parse4_show6 hC hh, hC.rt6 a hh]
+
+theorem socketAddr_total (C : HostCodec) (s : Str) : parseSocketAddr C s ≠ .panic := by
+  unfold parseSocketAddr
+  have h1 := parseSocketT_total _ (parseScionAddrT_total parseSvc) s
+  have h2 := parseSocketT_total _ (parseScionAddrT_total C.parse4) s
+  have h3 := parseSocketT_total _ (parseScionAddrT_total C.parse6) s
+  split
+  · simp
+  · next h => exact absurd h h1
+  · split
+    · simp
+    · next h => exact absurd h h2
+    · split
+      · simp
+      · next h => exact absurd h h3
+      · simp
+
+theorem sockSp_of {C : HostCodec} {α : Type} {ph : Str → Option α} {f : α → Host} {s : Str} {ia : Nat} {x : α} {p : Nat}
+    (h : parseSocketT (parseScionAddrT ph) s = .ok ((ia, x), p))
+    (hsp : ∀ b, ph b = some x → HostSp C (f x) b ∧ (f x).Valid) :
+    SockSp C ⟨ia, f x, p⟩ s ∧ SocketAddr.Valid ⟨ia, f x, p⟩ := by
+  obtain ⟨inner, ps, rfl, hin, hport⟩ := parseSocketT_ok_inv h
+  obtain ⟨a, b, rfl, hia, hh⟩ := parseScionAddrT_ok_inv hin
+  obtain ⟨sp, hr⟩ := isdAsn_accept_only_spellings _ _ hia
+  obtain ⟨psp, plt⟩ := parseUInt_spelling (Or.inl rfl) hport
+  obtain ⟨hs1, hs2⟩ := hsp b hh
+  exact ⟨⟨_, ps, rfl, ⟨a, b, rfl, sp, hs1⟩, psp⟩, hr, hs2, plt⟩
+
+theorem socketAddr_accept_only_spellings (C : HostCodec) (hC : C.Lawful) (s : Str) (a : SocketAddr)
+    (hp : parseSocketAddr C s = .ok a) : SockSp C a s ∧ a.Valid := by
+  unfold parseSocketAddr at hp
+  split at hp
+  · next ia v p h1 =>
+    cases hp
+    exact sockSp_of (f := Host.svc) h1 (fun b hb => svc_accept_only_spellings _ _ hb)
+  · cases hp
+  · split at hp
+    · next ia v p h1 =>
+      cases hp
+      exact sockSp_of (f := Host.v4) h1 (fun b hb => ⟨hb, hC.range4 _ _ hb⟩)
+    · cases hp
+    · split at hp
+      · next ia v p h1 =>
+        cases hp
+        exact sockSp_of (f := Host.v6) h1 (fun b hb => ⟨hb, hC.range6 _ _ hb⟩)
+      · cases hp
+      · cases hp
+
+/-- `ScionSocketIpAddr` -/
+theorem socketIpAddr_parse_show (C : HostCodec) (hC : C.Lawful) (a : SocketAddr) (hv : a.Valid)
+    (hip : ∀ v, a.host ≠ .svc v) : parseSocketIpAddr C (showSocketAddr C a) = .ok a := by
+  obtain ⟨ia, h, port⟩ := a
+  obtain ⟨hia, hh, hp⟩ := hv
+  simp only at hia hh hp hip
+  unfold parseSocketIpAddr showSocketAddr
+  have : [SOCK_OPEN] ++ showIsdAsn ia ++ [ADDR_SEP] ++ showHost C h ++ [SOCK_CLOSE] ++ [PORT_SEP] ++ showNat 10 port =
+      [SOCK_OPEN] ++ (showIsdAsn ia ++ [ADDR_SEP] ++ showHost C h) ++ [SOCK_CLOSE] ++ [PORT_SEP] ++ showNat 10 port := by simp
+  simp only [this, parseSocketT_shown _ _ port hp, parseScionAddrT_shown _ ia hia]
+  cases h with
+  | svc v => exact absurd rfl (hip v)
+  | v4 a => simp [showHost, hC.rt4 a hh]
+  | v6 a => simp [showHost, parse4_show6 hC hh, hC.rt6 a hh]
+
+theorem socketIpAddr_total (C : HostCodec) (s : Str) : parseSocketIpAddr C s ≠ .panic := by
+  unfold parseSocketIpAddr
+  have h2 := parseSocketT_total _ (parseScionAddrT_total C.parse4) s
+  have h3 := parseSocketT_total _ (parseScionAddrT_total C.parse6) s
+  split
+  · simp
+  · next h => exact absurd h h2
+  · split
+    · simp
+    · next h => exact absurd h h3
+    · simp
+
+theorem socketIpAddr_accept_only_spellings (C : HostCodec) (hC : C.Lawful) (s : Str) (a : SocketAddr)
+    (hp : parseSocketIpAddr C s = .ok a) : SockSp C a s ∧ a.Valid := by
+  unfold parseSocketIpAddr at hp
+  split at hp
+  · next ia v p h1 =>
+    cases hp
+    exact sockSp_of (f := Host.v4) h1 (fun b hb => ⟨hb, hC.range4 _ _ hb⟩)
+  · cases hp
+  · split at hp
+    · next ia v p h1 =>
+      cases hp
+      exact sockSp_of (f := Host.v6) h1 (fun b hb => ⟨hb, hC.range6 _ _ hb⟩)
+    · cases hp
+    · cases hp
+
 end ScionVerif.AddrText
